@@ -2,10 +2,12 @@
 //! `Index::update`, through the node simulator, with lock-step reference
 //! models and whole-index audits after every block.
 
+pub mod events;
 pub mod inscriptions;
 pub mod runes;
 pub mod runes_batch;
 pub mod sats;
+pub mod sched;
 
 use {
   crate::{
